@@ -75,3 +75,30 @@ let () =
     | ["aes_len"; n] -> string_of_int (int_of_n (adjust_aes_length (n_of_int (int_of_string n))))
     | ["write_binary"; v; w] -> hexbytes (write_binary (n_of_int (int_of_string v)) (nat_of_int (int_of_string w)))
     | _ -> "?args")
+
+(* ---- xref section merge model (File/XrefModel.v) ---- *)
+let c3_entries (s : string) : (n * c3_xe) list =
+  if s = "" then [] else
+  List.map (fun item -> match String.split_on_char ':' item with
+      | [o; k; a; b] ->
+        let o = n_of_int (int_of_string o) and a = n_of_int (int_of_string a) and b = n_of_int (int_of_string b) in
+        (o, (match k with "f" -> C3Free b | "n" -> C3Use (a, b) | _ -> C3Comp (a, b)))
+      | _ -> failwith "c3 entry") (String.split_on_char ',' s)
+
+let () =
+  register "xrefmodel" (fun args -> match args with
+    | [mx; chain] ->
+      let max_id = int_of_string mx in
+      let secs = List.map (fun s -> match String.split_on_char '|' s with
+          | [k; t; x] -> { c3_is_table = (k = "T"); c3_table = c3_entries t; c3_stm = c3_entries x }
+          | _ -> failwith "c3 section") (String.split_on_char ';' chain) in
+      let b = Buffer.create 256 in
+      Buffer.add_string b "ok";
+      for o = 1 to max_id do
+        (match c3_qpdf_view (n_of_int max_id) secs (n_of_int o) with
+         | Some (g, C3Use (off, _)) -> Buffer.add_string b (Printf.sprintf " %d=n:%d:%d" o (int_of_n off) (int_of_n g))
+         | Some (_, C3Comp (s, i)) -> Buffer.add_string b (Printf.sprintf " %d=c:%d:%d" o (int_of_n s) (int_of_n i))
+         | _ -> ())
+      done;
+      Buffer.contents b
+    | _ -> "?args")
